@@ -1,3 +1,4 @@
+import Momtrop.Model.SerdeG
 /-! GENERATED on every run by /verif/mtv/serde_schema.py from /repo/src/lib.rs and /repo/src/preprocessing.rs — do not edit. -/
 namespace Momtrop.Generated
 
@@ -14,5 +15,16 @@ def serdeCustomisations : List String := []
 
 /-- structs deriving both Serialize and Deserialize -/
 def serdeBoth : List String := ["SampleGenerator", "TropicalSubgraphTable", "TropicalSubgraphTableEntry", "TropicalGraph", "TropicalEdge"]
+
+/-- the same schema with parsed field types: the argument of the schema-generic round-trip theorem (Props/C18G) -/
+def typedSchema : Momtrop.SerdeG.Schema := [
+  ("SampleGenerator", [("loop_signature", (.seq (.seq .int))), ("table", (.struct "TropicalSubgraphTable"))]),
+  ("TropicalSubgraphTable", [("table", (.seq (.struct "TropicalSubgraphTableEntry"))), ("dimension", .nat), ("tropical_graph", (.struct "TropicalGraph")), ("cached_factor", .f64)]),
+  ("TropicalSubgraphTableEntry", [("loop_number", .nat), ("mass_momentum_spanning", .bool), ("j_function", .f64), ("generalized_dod", .f64)]),
+  ("TropicalGraph", [("dod", .f64), ("topology", (.seq (.struct "TropicalEdge"))), ("num_massive_edges", .nat), ("external_vertices", (.seq .nat)), ("num_loops", .nat)]),
+  ("TropicalEdge", [("edge_id", .nat), ("left", .nat), ("right", .nat), ("weight", .f64), ("is_massive", .bool)])]
+
+/-- every serde attribute on a field of these structs -/
+def fieldAttrs : List String := []
 
 end Momtrop.Generated
